@@ -198,6 +198,8 @@ def classify_write(prog, f, n, R, toupper_ok):
         import codec
         z = codec.zero_vector(f, m['obj'], R)
         if z is not None:
+            own = R.render(m['obj']) + '.size'
+            widths = [z if (len(w) == 1 and list(w.items())[0] == ((own,), 1)) else w for w in widths]
             for w in widths:
                 if not P.equal(w, z):
                     d = P.diff_const(z, w)
@@ -249,6 +251,19 @@ def classify_write(prog, f, n, R, toupper_ok):
                    'int': 4, 'unsigned int': 4, 'float': 4, 'int32_t': 4, 'uint32_t': 4, 'long': 8, 'unsigned long': 8, 'double': 8}[am.group(1)]
             size = int(am.group(2)) * esz
             if local_init(f, m['decl']['id']) is None:
+                # written piecewise before being emitted (memcpy / copy / element assignments)?
+                filled = False
+                for x in f.nodes:
+                    if x['k'] in ('CallExpr', 'CXXMemberCallExpr') and 'callee' in x and x['callee']['name'] in ('memcpy', 'memset', 'memmove', 'copy', 'fill', 'fill_n', 'copy_n', 'strncpy', 'read'):
+                        for a in x.get('args', []):
+                            if any(f.nodes[y]['k'] == 'DeclRefExpr' and f.nodes[y]['decl'].get('id') == m['decl']['id'] for y in f.descendants(a)):
+                                filled = True
+                    if x['k'] == 'BinaryOperator' and x['op'] == '=':
+                        l_ = f.nodes[f.strip(x['ch'][0], 'all')]
+                        if l_['k'] == 'ArraySubscriptExpr' and any(f.nodes[y]['k'] == 'DeclRefExpr' and f.nodes[y]['decl'].get('id') == m['decl']['id'] for y in f.descendants(l_['id'])):
+                            filled = True
+                if filled:
+                    return 'undecided', 'array', 'array `%s` has no initialiser and is filled piecewise before it is written: that every byte is assigned is not decided' % m['decl']['name']
                 return 'violation', 'array', 'array `%s` has no initialiser' % m['decl']['name']
             for w in widths:
                 c = w.get((), 0) if set(w.keys()) <= {()} else None
